@@ -1,7 +1,7 @@
 #!/bin/bash
 # tools/seed_recheck.sh <seed dir names...> -- re-run our quick check against kept seeded changes on the CURRENT /repo main
 # (after strengthening). One scratch worktree /tmp/seedre/wt, removed at the end. Updates meta.json "recheck".
-WT=/tmp/seedre/wt; mkdir -p /tmp/seedre
+L=${LANE:-0}; WT=/tmp/seedre$L/wt; mkdir -p /tmp/seedre$L
 git -C /repo worktree add -q --detach $WT main 2>/dev/null || { cd $WT && git checkout -q -- . && git checkout -q --detach main; }
 for S in "$@"; do
   D=/verif/seeded/$S; P=${S%%-*}
@@ -10,7 +10,7 @@ for S in "$@"; do
     if ! git apply -3 $D/patch.diff 2>/dev/null; then echo "$S APPLY-FAILS"; git checkout -q -- .; continue; fi
     git reset -q
   fi
-  PYTHONPATH=$WT NUMBA_CACHE_DIR=$WT/.numba_cache timeout 600 /venv/bin/python -W ignore $D/demo.py >/tmp/seedre/demo.out 2>&1; DEMO=$?
+  PYTHONPATH=$WT NUMBA_CACHE_DIR=$WT/.numba_cache timeout 600 /venv/bin/python -W ignore $D/demo.py >/tmp/seedre$L/demo.out 2>&1; DEMO=$?
   rm -f /verif/replays/${P}_2026*
   OUT=$(cd /verif && VERIF_REPO=$WT ./check $P quick 2>&1 | grep -v "KNOWN-FINDING\|conda"); CE=$?
   NV=$(echo "$OUT" | grep -c "^VIOLATION")
@@ -33,4 +33,4 @@ m['recheck']={'repo_main':head,'demo_exit_on_patched_tree':int(demo),'violations
 json.dump(m,open(d+'/meta.json','w'),indent=1)
 PY
 done
-cd /; git -C /repo worktree remove --force $WT; git -C /repo worktree prune; rm -rf /tmp/seedre
+cd /; git -C /repo worktree remove --force $WT; git -C /repo worktree prune; rm -rf /tmp/seedre$L
